@@ -241,12 +241,14 @@ def world (t : Text) : List Text := fields t
 /-- `APK.GetRepositories` on the file's bytes: the scanned lines; the scanner's error is not looked at -/
 def repositories (t : Text) : List Text := (scanLines defaultTokenMax t).1
 
+def isTagged (pgs : PrefixList) (repo : Text) : Bool :=
+  match findPrefix pgs "repo" with
+  | some (lit, _) => lit.isPrefixOf repo
+  | none => true
+
 /-- the `@tag url` decision of `GetRepositoryIndexes` for one repositories line: (name, url) -/
 def repoLine (gs : GuardList) (pgs : PrefixList) (repo : Text) : Res (Text × Text) :=
-  let tagged := match findPrefix pgs "repo" with
-    | some (lit, _) => lit.isPrefixOf repo
-    | none => true
-  if !tagged then .ok ([], repo) else
+  if !isTagged pgs repo then .ok ([], repo) else
   let parts := fields repo
   if !passes (findLen gs "parts") parts.length then .err else
   (idx parts 0).bind fun p0 =>
